@@ -393,26 +393,25 @@ structure MEnt where
   chunkSize : Int
   deriving Repr, Inhabited
 
-structure P1 where
-  out : List MEnt := []          -- reversed
-  lastPath : Path := []
-  lastRegSize : Option Int := none
-
-def pass1Step (s : P1) (e : Entry) : P1 :=
+/-- one iteration of the first loop of `initFields`: `lastPath` / `lastRegSize` are the loop's
+`lastPath` and `lastRegEnt.Size`. -/
+def pass1Ent (lastPath : Path) (lastRegSize : Option Int) (e : Entry) : MEnt × Path × Option Int :=
   let name := cleanName e.name
-  let lastReg := if e.type = "reg" then some e.size else s.lastRegSize
-  let (path, cs, lastPath) :=
-    if e.type = "chunk" then
-      let cs := if e.chunkSize = 0 then
-                  (match lastReg with | some sz => sz - e.chunkOffset | none => 0)
-                else e.chunkSize
-      (s.lastPath, cs, s.lastPath)
-    else (name, e.chunkSize, name)
+  let lastReg := if e.type = "reg" then some e.size else lastRegSize
+  let path := if e.type = "chunk" then lastPath else name
+  let cs := if e.type = "chunk" ∧ e.chunkSize = 0 then
+              (match lastReg with | some sz => sz - e.chunkOffset | none => 0)
+            else e.chunkSize
   let cs := if cs = 0 ∧ e.size ≠ 0 then e.size else cs
-  { out := { e := e, path := path, chunkSize := cs } :: s.out, lastPath := lastPath,
-    lastRegSize := lastReg }
+  ({ e := e, path := path, chunkSize := cs }, path, lastReg)
 
-def pass1 (es : List Entry) : List MEnt := (es.foldl pass1Step {}).out.reverse
+def pass1Go (lastPath : Path) (lastRegSize : Option Int) : List Entry → List MEnt
+  | [] => []
+  | e :: es =>
+    let r := pass1Ent lastPath lastRegSize e
+    r.1 :: pass1Go r.2.1 r.2.2 es
+
+def pass1 (es : List Entry) : List MEnt := pass1Go [] none es
 
 /-- `r.m[name]` restricted to TOC entries: index of the last non-chunk entry with that name. -/
 def lastIdxFrom (ms : List MEnt) (p : Path) (i : Nat) : Option Nat :=
@@ -599,16 +598,14 @@ def memTree (es : List Entry) : Outcome Tree :=
 
 /-! ## DB store -/
 
-structure DbMeta where
-  kids : Kids := []
-  chunks : List Chunk := []
-  deriving Repr, Inhabited
-
 structure DState where
   /-- node buckets -/
   nodes : Key → Option DbAttr := fun _ => none
-  /-- the in-memory `md` map: children and chunks per node (`none` = `md[id] == nil`) -/
-  md : Key → Option DbMeta := fun _ => none
+  /-- the in-memory `md` map, children part (`md[id] == nil` and an empty children map both make
+  `getIDByName` fail, so they are not distinguished) -/
+  kids : Key → Kids := fun _ => []
+  /-- the in-memory `md` map, chunks part -/
+  chunks : Key → List Chunk := fun _ => []
   -- locals of the Batch closure
   lastEnt : Option Key := none
   lastEntSize : Int := 0
@@ -617,26 +614,23 @@ def rootAttr : Attr := { mode := modeDir + 0o755, numLink := 2 }
 
 def dInit : DState := { nodes := fun k => if k = .root then some (writeAttr {} rootAttr) else none }
 
-/-- `getIDByName(md, name, rootID)`: walk the children maps from the root. -/
-def dWalk (s : DState) : Key → Path → Option Key
+/-- walk children maps from a node (shared by both stores' models) -/
+def walkKids (kids : Key → Kids) : Key → Path → Option Key
   | k, [] => some k
   | k, b :: rest =>
-    match s.md k with
+    match getKid b (kids k) with
+    | some c => walkKids kids c rest
     | none => none
-    | some m =>
-      match getKid b m.kids with
-      | some c => dWalk s c rest
-      | none => none
 
-def dGetIDByName (s : DState) (p : Path) : Option Key := dWalk s .root p
+/-- `getIDByName(md, name, rootID)`: walk the children maps from the root. -/
+def dGetIDByName (s : DState) (p : Path) : Option Key := walkKids s.kids .root p
 
 def setNode (s : DState) (k : Key) (b : DbAttr) : DState :=
   { s with nodes := fun k' => if k' = k then some b else s.nodes k' }
 
 /-- `setChild` (the parent bucket exists: callers obtained it) -/
 def dSetChild (s : DState) (pid : Key) (base : String) (id : Key) (isDir : Bool) : DState :=
-  let m := (s.md pid).getD {}
-  let s := { s with md := fun k => if k = pid then some { m with kids := setKid base id m.kids } else s.md k }
+  let s := { s with kids := fun k => if k = pid then setKid base id (s.kids k) else s.kids k }
   if isDir then
     match s.nodes pid with
     | some b => setNode s pid (bumpNumLink b)
@@ -664,8 +658,7 @@ def dGetOrCreateDir (s : DState) : (rev : List String) → Option (DState × Key
       | none => none
 
 def addChunk (s : DState) (k : Key) (c : Chunk) : DState :=
-  let m := (s.md k).getD {}
-  { s with md := fun k' => if k' = k then some { m with chunks := m.chunks ++ [c] } else s.md k' }
+  { s with chunks := fun k' => if k' = k then s.chunks k ++ [c] else s.chunks k' }
 
 /-- One iteration of the decode loop of `initNodes`. `none` = the closure returns an error. -/
 def dStep (s : DState) (i : Nat) (e : Entry) : Option DState :=
@@ -745,7 +738,7 @@ def dInitNodes (es : List Entry) : Option DState :=
   | .inl s => some s
   | .inr (i, s) =>
     if batchRerun then
-      let s2 : DState := { nodes := dInit.nodes, md := s.md, lastEnt := none, lastEntSize := 0 }
+      let s2 : DState := { nodes := dInit.nodes, kids := s.kids, chunks := s.chunks, lastEnt := none, lastEntSize := 0 }
       match dRun ((enumFrom' 0 es).drop (i + 1)) s2 with
       | .inl s => some s
       | .inr _ => none
@@ -756,14 +749,13 @@ def dbNode (s : DState) (k : Key) : Node :=
   | none => { ok := false }
   | some b =>
     let a := readAttr b
-    let m := (s.md k).getD {}
-    let rows := readChunks m.chunks a.size
+    let rows := readChunks (s.chunks k) a.size
     { attr := a,
       offset := (rows.head?.map (·.offset)).getD 0,
       openOk := fmIsRegular a.mode,
       chunks := .table rows,
-      kids := m.kids,
-      kidsErr := m.kids.any fun kv => (s.nodes kv.2).isNone }
+      kids := s.kids k,
+      kidsErr := (s.kids k).any fun kv => (s.nodes kv.2).isNone }
 
 /-- `db.NewReader` + `waitInit`. -/
 def dbTree (es : List Entry) : Outcome Tree :=
@@ -810,7 +802,7 @@ def probeOffsets (tab : ChunkTab) (size : Int) : List Int :=
       | some (co, cs, _) =>
         let acc := acc ++ [co - 1, co, co + 1, co + cs - 1, co + cs, co + cs + 1]
         if cs ≤ 0 ∨ co + cs ≤ off then acc else walk fuel (co + cs) acc
-  walk 2000 0 [-1, 0, 1, size - 1, size, size + 1]
+  walk 2000 0 [0, 1, size - 1, size, size + 1]
 
 def insertInt (x : Int) : List Int → List Int
   | [] => [x]
@@ -857,7 +849,9 @@ def nodeView (t : Tree) (all : List (Path × Key)) (pk : Path × Key) : NodeView
     deep := deep,
     openOk := opened,
     probes := if opened then
-                (sortDedupInts (probeOffsets n.chunks n.attr.size)).map fun x => (x, n.chunks.lookup x)
+                -- file offsets only: a negative number is not an offset of the file
+                ((sortDedupInts (probeOffsets n.chunks n.attr.size)).filter (· ≥ 0)).map
+                  fun x => (x, n.chunks.lookup x)
               else [] }
 
 def view (t : Tree) : View :=
